@@ -374,6 +374,60 @@ Corollary apply_f_no_iterable_added d v : d_iadd d = [] -> d_moved d = [] ->
   apply_f conv ro ao d v = inr (apply conv ro ao d v).
 Proof. intros H1 H2. apply apply_f_sound. apply insert_regular_no_iterable_added; assumption. Qed.
 
+(* ---- exact characterisation when the added paths end in non-negative ints (every delta of a diff) ---- *)
+Lemma add_one_f_irregular s p v : add_reg true s p = false -> ends_nonneg p = true ->
+  exists e, add_one_f true s p v = inl e.
+Proof.
+  unfold add_reg, ends_nonneg, add_one_f, add_one_g. cbn [negb orb]. destruct p as [|k0 p0]; [intros _ _; eexists; reflexivity|].
+  set (op := removelast (k0 :: p0)). set (k := key_atom (last (k0 :: p0) (PIdx 0))).
+  destruct (resolve (root s) op) as [obj|]; [|intros H; discriminate H]. intros H NN.
+  apply orb_false_iff in H as [H1 H2]. rewrite NN, andb_true_r in H1.
+  destruct (py_len obj) as [n|]; [|eexists; reflexivity].
+  destruct (elem_lt k n) as [b|]; [|eexists; reflexivity]. destruct b; [|discriminate H2].
+  destruct obj; try discriminate H1; eexists; reflexivity.
+Qed.
+
+Lemma fold_res_irregular {A} (f : st -> A -> res st) (step : st -> A -> st) (reg : st -> A -> bool) (Q : A -> Prop) :
+  (forall s x, reg s x = true -> f s x = inr (step s x)) ->
+  (forall s x, Q x -> reg s x = false -> exists e, f s x = inl e) ->
+  forall l s, (forall x, In x l -> Q x) -> fold_reg step reg l s = false -> exists e, fold_res f l s = inl e.
+Proof.
+  intros H1 H2 l. induction l as [|x l IH]; intros s HQ R; [discriminate R|].
+  cbn [fold_reg] in R. cbn [fold_res]. destruct (reg s x) eqn:Rx.
+  - rewrite (H1 s x Rx). cbn [andb] in R. apply IH; [|exact R]. intros y Hy. apply HQ. right. exact Hy.
+  - destruct (H2 s x (HQ x (or_introl eq_refl)) Rx) as [e E]. rewrite E. exists e. reflexivity.
+Qed.
+
+(* on such a delta the faithful run raises exactly when DeltaModel's run is not insert-regular; [ao] visits only
+   items it was given (it is a sort) *)
+Theorem apply_f_raises_iff d v : nonneg_paths d = true -> (forall x, In x (ao (added_items d)) -> In x (added_items d)) ->
+  ((exists e, apply_f conv ro ao d v = inl e) <-> insert_regular conv ro ao d v = false).
+Proof.
+  intros NN Hao. split; [intros [e E]; apply (apply_f_raises d v e E)|].
+  unfold added_items in Hao.
+  intros H. unfold apply_f, apply_w. cbv zeta.
+  unfold insert_regular, iterable_added_reg, state6, state5 in H. cbv zeta in H.
+  set (s5 := do_opcodes (d_ops d) _) in *.
+  assert (E6 : do_iterable_item_removed_w ro lift_rem (d_bidir d) d s5 = inr (do_iterable_item_removed ro (d_bidir d) d s5)).
+  { unfold do_iterable_item_removed_w, do_item_removed_w, do_iterable_item_removed, do_item_removed, lift_rem. apply fold_res_lift. }
+  rewrite E6. cbn [rbind]. set (s6 := do_iterable_item_removed ro (d_bidir d) d s5) in *.
+  unfold do_iterable_item_added_w. cbv zeta.
+  set (added := (map (fun pv => (fst pv, Some (snd pv))) (d_iadd d) ++ map (fun m => (snd (fst m), None)) (d_moved d))%list) in *.
+  assert (QA : forall x, In x added -> ends_nonneg (fst x) = true).
+  { intros x Hx. unfold added in Hx. unfold nonneg_paths in NN. apply andb_true_iff in NN as [N1 N2].
+    apply in_app_or in Hx as [Hx|Hx]; apply in_map_iff in Hx as (y & <- & Hy); cbn [fst].
+    - eapply forallb_forall in N1; [|exact Hy]. exact N1.
+    - eapply forallb_forall in N2; [|exact Hy]. exact N2. }
+  destruct added as [|a0 added'] eqn:EA; [discriminate H|].
+  unfold added_reg in H. unfold do_item_added_w.
+  destruct (fold_res_irregular (fun s pv => add_one_f true s (fst pv) (snd pv)) (fun s pv => add_one true s (fst pv) (snd pv))
+              (fun s pv => add_reg true s (fst pv)) (fun x => ends_nonneg (fst x) = true)
+              (fun s x R => add_one_f_reg true s (fst x) (snd x) R)
+              (fun s x Q R => add_one_f_irregular s (fst x) (snd x) R Q)
+              (ao (a0 :: added')) s6 (fun x Hx => QA x (Hao x Hx)) H) as [e E].
+  rewrite E. exists e. reflexivity.
+Qed.
+
 (* ---- the fully faithful run ---- *)
 Lemma do_item_added_ff_reg sort ins l s : added_reg ao sort ins l s = true -> written_reg ao sort ins l s = true ->
   do_item_added_w ao add_one_ff sort ins l s = inr (do_item_added ao sort ins l s).
@@ -492,11 +546,14 @@ Proof. vm_compute. repeat split; reflexivity. Qed.
    {'a': 1} + Delta({'iterable_item_added': {'root[0]': 9}}) raises AttributeError ('dict' object has no attribute 'insert'),
    [5] + Delta({'iterable_item_added': {'root[0][0]': 9}}) raises TypeError (object of type 'int' has no len());
    the paths end in a non-negative int and there is no tuple anywhere *)
+Definition nsp_d1 : delta := free_delta [([PKey (AInt 0)], I 9)] [] [] [] [] [].          (* iterable_item_added root[0] = 9 *)
+Definition nsp_v1 : value := VDict [(s "a", I 1)].                                          (* {'a': 1} *)
+Definition nsp_r1 : value := VDict [(s "a", I 1); (AInt 0, I 9)].
+Definition nsp_d2 : delta := free_delta [([PKey (AInt 0); PKey (AInt 0)], I 9)] [] [] [] [] [].   (* root[0][0] = 9 *)
+Definition nsp_v2 : value := VList [I 5].                                                    (* [5] *)
 Lemma no_static_path_condition :
-  app_f (free_delta [([PKey (AInt 0)], I 9)] [] [] [] [] []) (VDict [(s "a", I 1)]) = inl EAttribute /\
-  app_m (free_delta [([PKey (AInt 0)], I 9)] [] [] [] [] []) (VDict [(s "a", I 1)]) = (VDict [(s "a", I 1); (AInt 0, I 9)], 0) /\
-  app_f (free_delta [([PKey (AInt 0); PKey (AInt 0)], I 9)] [] [] [] [] []) (VList [I 5]) = inl EType /\
-  app_m (free_delta [([PKey (AInt 0); PKey (AInt 0)], I 9)] [] [] [] [] []) (VList [I 5]) = (VList [I 5], 1).
+  nonneg_paths nsp_d1 = true /\ app_f nsp_d1 nsp_v1 = inl EAttribute /\ app_m nsp_d1 nsp_v1 = (nsp_r1, 0) /\
+  nonneg_paths nsp_d2 = true /\ app_f nsp_d2 nsp_v2 = inl EType /\ app_m nsp_d2 nsp_v2 = (nsp_v2, 1).
 Proof. vm_compute. repeat split; reflexivity. Qed.
 
 (* the fully faithful run: a write that fails on a tuple leaves the coercion behind -
